@@ -206,7 +206,7 @@ def stage_a(ctx, procs):
         ctx.violation('C11/spec/LvsTree/%s' % r.violated, 'TLC: %s violated by the walk machine' % r.violated,
                       {'kind': 'spec', 'trace': r.errtrace})
     for a in WALK_ACTS:
-        if r.ok and r.coverage.get(a, (0, 0))[0] == 0:
+        if r.ok and r.coverage.get(a, (0, 0))[1] == 0:
             raise tlc.MachineryError('vacuous: action %s of the walk machine never taken' % a)
     for w, rw in zip(wits, res[1:4]):
         if rw.violated != w:
